@@ -6,6 +6,7 @@ import RegexVerif.Lemmas.CompileStep
 import RegexVerif.Lemmas.CompileLoop
 import RegexVerif.Lemmas.CompileCut
 import RegexVerif.Lemmas.CompileGLoop
+import RegexVerif.Lemmas.CompileRef
 
 namespace RegexVerif.Compile
 open RegexVerif.VM RegexVerif.Code RegexVerif.Writer RegexVerif.Generated.Opcodes RegexVerif RegexVerif.Spec
@@ -28,18 +29,12 @@ structure World where
   k : Nat
   /-- … and from tier 4 (general loops: the iteration counter must stay below `MaxInt32`) on, strictly shorter -/
   hlenS : 4 ≤ k → X.se.n < 2147483647
+  /-- from tier 6 (groups are read back) on: slots are group numbers, and the engine is not in ECMAScript mode (where
+      a reference to a group without capture matches the empty string; the specification has no such rule) -/
+  hid : 6 ≤ k → ∀ g, X.sl g = g
+  hecma : 6 ≤ k → X.env.ecma = false
 
 def World.cfg (W : World) : Cfg := ⟨W.caps, none⟩
-
-theorem map_eq_flatMap_singleton {α β : Type} (f : α → β) (l : List α) : l.map f = l.flatMap (fun x => [f x]) := by
-  induction l with
-  | nil => rfl
-  | cons x xs ih => simp [ih]
-
-theorem flatMap_singleton_id {α : Type} (l : List α) : l.flatMap (fun x => [x]) = l := by
-  induction l with
-  | nil => rfl
-  | cons x xs ih => simp [ih]
 
 theorem emitAlt_cons_cons (cfg : Cfg) (a fin : Nat) (tb : Tables) (c d : GoNode) (ds : List GoNode) :
     emitAlt cfg a fin tb (c :: d :: ds) =
@@ -55,7 +50,7 @@ theorem sizeAlt_cons_cons (cfg : Cfg) (c d : GoNode) (ds : List GoNode) :
   simp
 
 /-- the highest tier the simulation lemma covers so far -/
-def maxTier : Nat := 5
+def maxTier : Nat := 6
 
 section main
 variable (W : World)
@@ -211,8 +206,35 @@ theorem node_delivers : ∀ (n : GoNode) (a : Nat) (tb : Tables) (pat : Pat),
       simp only [size]
       exact multi_delivers W.hrel hwf.1 he hia hget hf
     · cases hp
-  | .ref rtl ci g, a, tb, pat, ht, _, _, _, _, _, _, i, T, S, v, C, s, _, _ => by
-    have ht := Nat.le_trans ht hWk; simp [tier, maxTier] at ht
+  | .ref rtl ci g, a, tb, pat, ht, hp, hok, hcaps, hbd, hcode, hext, i, T, S, v, C, s, hwf, he => by
+    simp only [toPat] at hp
+    simp only [emitNode] at hcode
+    simp only [tier] at ht
+    split at hp
+    · next hc =>
+      simp only [Bool.and_eq_true, beq_iff_eq, decide_eq_true_eq] at hc
+      obtain ⟨hr, hg0⟩ := hc
+      subst hr
+      cases hp
+      have hci : ci = false := by
+        cases ci with
+        | false => rfl
+        | true => have := Nat.le_trans ht hWk; simp [maxTier] at this
+      subst hci
+      have h6 : 6 ≤ W.k := by simpa using ht
+      have hslot := slotOk_iff.1 (by simpa [capsOk] using hcaps : slotOk W.cfg W.X.p.capsize g = true)
+      have hsl : mapCapnum W.cfg g = ((g.toNat : Nat) : Int) := by
+        have h1 := W.hsl g.toNat
+        rw [W.hid h6] at h1
+        have : ((g.toNat : Nat) : Int) = g := by omega
+        rw [this] at h1
+        have h2 : (mapCapnum W.cfg g).toNat = g.toNat := h1.symm
+        omega
+      rw [hsl] at hcode
+      have := ref_delivers W.hrel hwf (W.hid h6) (g := g.toNat) (by omega) (W.hecma h6) he hcode.instr
+        (by simpa using hcode.fetch_end)
+      simpa [size] using this
+    · cases hp
   | .charloop t rtl ci ch lo hi, a, tb, pat, _, hp, hok, _, hbd, hcode, _, i, T, S, v, C, s, hwf, he => by
     simp only [toPat] at hp
     simp only [emitNode] at hcode
@@ -409,14 +431,166 @@ theorem node_delivers : ∀ (n : GoNode) (a : Nat) (tb : Tables) (pat : Pat),
           ((hcode.left').right.cast (by simp) rfl) hext i ((a : Int) :: T) _ v C s1 hwf he1)
       refine this.cast (by simp only [size]; omega) ?_
       simp only [m]
-  | .backrefcond1 g y, a, tb, pat, ht, _, _, _, _, _, _, i, T, S, v, C, s, _, _ => by
-    have ht := Nat.le_trans ht hWk; simp [tier, maxTier] at ht; omega
-  | .backrefcond2 g y n, a, tb, pat, ht, _, _, _, _, _, _, i, T, S, v, C, s, _, _ => by
-    have ht := Nat.le_trans ht hWk; simp [tier, maxTier] at ht; omega
-  | .exprcond2 c y, a, tb, pat, ht, _, _, _, _, _, _, i, T, S, v, C, s, _, _ => by
-    have ht := Nat.le_trans ht hWk; simp [tier, maxTier] at ht; omega
-  | .exprcond3 c y n, a, tb, pat, ht, _, _, _, _, _, _, i, T, S, v, C, s, _, _ => by
-    have ht := Nat.le_trans ht hWk; simp [tier, maxTier] at ht; omega
+  | .backrefcond1 g y, a, tb, pat, ht, hp, hok, hcaps, hbd, hcode, hext, i, T, S, v, C, s, hwf, he => by
+    simp only [toPat] at hp
+    simp only [tier, Nat.max_le] at ht
+    split at hp
+    · next hg0 =>
+      cases hpy : toPat W.TPx false y with
+      | none => rw [hpy] at hp; cases hp
+      | some py =>
+        rw [hpy] at hp
+        simp only [Option.map_some, Option.some.injEq] at hp
+        subst hp
+        simp only [emitNode] at hcode hext
+        simp only [capsOk, Bool.and_eq_true] at hcaps
+        have hslot := slotOk_iff.1 hcaps.1
+        have hsl : mapCapnum W.cfg g = ((g.toNat : Nat) : Int) := by
+          have h1 := W.hsl g.toNat
+          rw [W.hid ht.1] at h1
+          have : ((g.toNat : Nat) : Int) = g := by omega
+          rw [this] at h1
+          have h2 : (mapCapnum W.cfg g).toNat = g.toNat := h1.symm
+          omega
+        rw [hsl] at hcode
+        have hcy : CodeAt W.X.p (a + 6) (emitNode W.cfg (a + 6) tb y).1 :=
+          ((hcode.left').right).cast (by simp [codeLen]) rfl
+        have := backrefcond_delivers (szy := size W.cfg y) (szn := 0) (ycode := (emitNode W.cfg (a + 6) tb y).1) (ncode := [])
+          (rsY := m W.X.se py false ⟨i, C⟩)
+          (rsN := [⟨i, C⟩]) (W.hid ht.1) (g := g.toNat) (by omega) (hcode.cast rfl (by simp)) (emitNode_size _ _ _ _) rfl he
+          (fun _ s1 he1 => node_delivers y (a + 6) tb py ht.2 hpy (by simpa [GoNode.ok] using hok) hcaps.2
+            (by simpa [boundsOk] using hbd) hcy hext i _ S v C s1 hwf he1)
+          (fun _ s1 he1 => Delivers.single (v := v) (Leads.here (by simpa using he1)) rfl)
+        refine this.cast (by simp only [size]; omega) ?_
+        simp only [m]
+    · cases hp
+  | .backrefcond2 g y n, a, tb, pat, ht, hp, hok, hcaps, hbd, hcode, hext, i, T, S, v, C, s, hwf, he => by
+    simp only [toPat] at hp
+    simp only [tier, Nat.max_le] at ht
+    split at hp
+    · next hg0 =>
+      cases hpy : toPat W.TPx false y with
+      | none => rw [hpy] at hp; simp at hp
+      | some py =>
+        cases hpn : toPat W.TPx false n with
+        | none => rw [hpy, hpn] at hp; simp at hp
+        | some pn =>
+          rw [hpy, hpn] at hp
+          simp only [Option.some.injEq] at hp
+          subst hp
+          simp only [emitNode] at hcode hext
+          simp only [capsOk, Bool.and_eq_true] at hcaps
+          simp only [GoNode.ok, Bool.and_eq_true] at hok
+          simp only [boundsOk, Bool.and_eq_true] at hbd
+          have hslot := slotOk_iff.1 hcaps.1.1
+          have hsl : mapCapnum W.cfg g = ((g.toNat : Nat) : Int) := by
+            have h1 := W.hsl g.toNat
+            rw [W.hid ht.1] at h1
+            have : ((g.toNat : Nat) : Int) = g := by omega
+            rw [this] at h1
+            have h2 : (mapCapnum W.cfg g).toNat = g.toNat := h1.symm
+            omega
+          rw [hsl] at hcode
+          have hcy : CodeAt W.X.p (a + 6) (emitNode W.cfg (a + 6) tb y).1 :=
+            (((hcode.left').left').right).cast (by simp [codeLen]) rfl
+          have hcn : CodeAt W.X.p (a + 6 + size W.cfg y + 3)
+              (emitNode W.cfg (a + 6 + size W.cfg y + 3) (emitNode W.cfg (a + 6) tb y).2 n).1 := by
+            have := hcode.right
+            simp only [codeLen_append, emitNode_size] at this
+            exact this.cast (by simp [codeLen] <;> omega) rfl
+          have hexty : TabExt (emitNode W.cfg (a + 6) tb y).2 W.fin := (emitNode_ext W.cfg n _ _).trans hext
+          have := backrefcond_delivers (szy := size W.cfg y) (szn := size W.cfg n) (rsY := m W.X.se py false ⟨i, C⟩)
+            (rsN := m W.X.se pn false ⟨i, C⟩) (W.hid ht.1) (g := g.toNat) (by omega) hcode (emitNode_size _ _ _ _)
+            (emitNode_size _ _ _ _) he
+            (fun _ s1 he1 => node_delivers y (a + 6) tb py ht.2.1 hpy hok.1 hcaps.1.2 hbd.1 hcy hexty i _ S v C s1 hwf he1)
+            (fun _ s1 he1 => node_delivers n (a + 6 + size W.cfg y + 3) _ pn ht.2.2 hpn hok.2 hcaps.2 hbd.2 hcn hext i _ S v C s1
+              hwf he1)
+          refine this.cast (by simp only [size]; omega) ?_
+          simp only [m]
+    · cases hp
+  | .exprcond2 c y, a, tb, pat, ht, hp, hok, hcaps, hbd, hcode, hext, i, T, S, v, C, s, hwf, he => by
+    simp only [toPat] at hp
+    simp only [tier, Nat.max_le] at ht
+    cases hpc : toPat W.TPx false c with
+    | none => rw [hpc] at hp; simp at hp
+    | some pc =>
+      cases hpy : toPat W.TPx false y with
+      | none => rw [hpc, hpy] at hp; simp at hp
+      | some py =>
+        rw [hpc, hpy] at hp
+        simp only [Option.some.injEq] at hp
+        subst hp
+        simp only [emitNode] at hcode hext
+        simp only [capsOk, Bool.and_eq_true] at hcaps
+        simp only [GoNode.ok, Bool.and_eq_true] at hok
+        simp only [boundsOk, Bool.and_eq_true] at hbd
+        have hcc : CodeAt W.X.p (a + 4) (emitNode W.cfg (a + 4) tb c).1 :=
+          (((((hcode.left').left').left').right)).cast (by simp [codeLen]) rfl
+        have hcy : CodeAt W.X.p (a + 4 + size W.cfg c + 2)
+            (emitNode W.cfg (a + 4 + size W.cfg c + 2) (emitNode W.cfg (a + 4) tb c).2 y).1 := by
+          have := (hcode.left').right
+          simp only [codeLen_append, emitNode_size] at this
+          exact this.cast (by simp [codeLen] <;> omega) rfl
+        have hextc : TabExt (emitNode W.cfg (a + 4) tb c).2 W.fin := (emitNode_ext W.cfg y _ _).trans hext
+        have := exprcond_delivers (szc := size W.cfg c) (szy := size W.cfg y) (szn := 0) (ccode := (emitNode W.cfg (a + 4) tb c).1)
+          (ycode := (emitNode W.cfg (a + 4 + size W.cfg c + 2) (emitNode W.cfg (a + 4) tb c).2 y).1) (ncode := [])
+          (rsC := m W.X.se pc false ⟨i, C⟩) (rsY := fun r => m W.X.se py false ⟨i, r.caps⟩) (rsN := [⟨i, C⟩]) W.hrel hwf.1
+          (hcode.cast rfl (by simp)) (emitNode_size _ _ _ _) (emitNode_size _ _ _ _) rfl he
+          (fun r hr => m_caps_ext W.X.se pc false ⟨i, C⟩ r hr)
+          (fun s1 he1 => node_delivers c (a + 4) tb pc ht.2.1 hpc hok.1 hcaps.1 hbd.1 hcc hextc i _ _ v C s1 hwf he1)
+          (fun r hr s1 v1 he1 => node_delivers y (a + 4 + size W.cfg c + 2) _ py ht.2.2 hpy hok.2 hcaps.2 hbd.2 hcy hext i _ S v1
+            r.caps s1 ⟨hwf.1, (m_wf W.X.se pc false ⟨i, C⟩ hwf r (List.mem_of_mem_head? hr)).2⟩ he1)
+          (fun _ s1 v1 he1 => Delivers.single (v := v1) (Leads.here (by simpa using he1)) rfl)
+        refine this.cast (by simp only [size]; omega) ?_
+        simp only [m]
+        cases m W.X.se pc false ⟨i, C⟩ <;> rfl
+  | .exprcond3 c y n, a, tb, pat, ht, hp, hok, hcaps, hbd, hcode, hext, i, T, S, v, C, s, hwf, he => by
+    simp only [toPat] at hp
+    simp only [tier, Nat.max_le] at ht
+    cases hpc : toPat W.TPx false c with
+    | none => rw [hpc] at hp; simp at hp
+    | some pc =>
+      cases hpy : toPat W.TPx false y with
+      | none => rw [hpc, hpy] at hp; simp at hp
+      | some py =>
+        cases hpn : toPat W.TPx false n with
+        | none => rw [hpc, hpy, hpn] at hp; simp at hp
+        | some pn =>
+          rw [hpc, hpy, hpn] at hp
+          simp only [Option.some.injEq] at hp
+          subst hp
+          simp only [emitNode] at hcode hext
+          simp only [capsOk, Bool.and_eq_true] at hcaps
+          simp only [GoNode.ok, Bool.and_eq_true] at hok
+          simp only [boundsOk, Bool.and_eq_true] at hbd
+          have hcc : CodeAt W.X.p (a + 4) (emitNode W.cfg (a + 4) tb c).1 :=
+            ((((((hcode.left').left').left').left').right)).cast (by simp [codeLen]) rfl
+          have hcy : CodeAt W.X.p (a + 4 + size W.cfg c + 2)
+              (emitNode W.cfg (a + 4 + size W.cfg c + 2) (emitNode W.cfg (a + 4) tb c).2 y).1 := by
+            have := ((hcode.left').left').right
+            simp only [codeLen_append, emitNode_size] at this
+            exact this.cast (by simp [codeLen] <;> omega) rfl
+          have hcn : CodeAt W.X.p (a + 4 + size W.cfg c + 2 + size W.cfg y + 4)
+              (emitNode W.cfg (a + 4 + size W.cfg c + 2 + size W.cfg y + 4)
+                (emitNode W.cfg (a + 4 + size W.cfg c + 2) (emitNode W.cfg (a + 4) tb c).2 y).2 n).1 := by
+            have := hcode.right
+            simp only [codeLen_append, emitNode_size] at this
+            exact this.cast (by simp [codeLen] <;> omega) rfl
+          have hexty : TabExt (emitNode W.cfg (a + 4 + size W.cfg c + 2) (emitNode W.cfg (a + 4) tb c).2 y).2 W.fin :=
+            (emitNode_ext W.cfg n _ _).trans hext
+          have hextc : TabExt (emitNode W.cfg (a + 4) tb c).2 W.fin := (emitNode_ext W.cfg y _ _).trans hexty
+          have := exprcond_delivers (szc := size W.cfg c) (szy := size W.cfg y) (szn := size W.cfg n)
+            (rsC := m W.X.se pc false ⟨i, C⟩) (rsY := fun r => m W.X.se py false ⟨i, r.caps⟩)
+            (rsN := m W.X.se pn false ⟨i, C⟩) W.hrel hwf.1 hcode (emitNode_size _ _ _ _) (emitNode_size _ _ _ _)
+            (emitNode_size _ _ _ _) he (fun r hr => m_caps_ext W.X.se pc false ⟨i, C⟩ r hr)
+            (fun s1 he1 => node_delivers c (a + 4) tb pc ht.2.1 hpc hok.1.1 hcaps.1.1 hbd.1.1 hcc hextc i _ _ v C s1 hwf he1)
+            (fun r hr s1 v1 he1 => node_delivers y (a + 4 + size W.cfg c + 2) _ py ht.2.2.1 hpy hok.1.2 hcaps.1.2 hbd.1.2 hcy
+              hexty i _ S v1 r.caps s1 ⟨hwf.1, (m_wf W.X.se pc false ⟨i, C⟩ hwf r (List.mem_of_mem_head? hr)).2⟩ he1)
+            (fun _ s1 v1 he1 => node_delivers n (a + 4 + size W.cfg c + 2 + size W.cfg y + 4) _ pn ht.2.2.2 hpn hok.2 hcaps.2 hbd.2
+              hcn hext i _ S v1 C s1 hwf he1)
+          refine this.cast (by simp only [size]; omega) ?_
+          simp only [m]
+          cases m W.X.se pc false ⟨i, C⟩ <;> rfl
   | .other t, a, tb, pat, ht, _, _, _, _, _, _, i, T, S, v, C, s, _, _ => by
     have ht := Nat.le_trans ht hWk; simp [tier, maxTier] at ht
 /-- `Concatenate`: the children one after the other -/
